@@ -112,6 +112,28 @@ def be64 (b : Bytes) : W64 := BitVec.ofNat 64 (b.foldl (fun a x => a * 256 + x.t
 /-- `binary.BigEndian.Uint64(b)`: needs 8 octets -/
 def uint64At (b : Bytes) : Outcome W64 := if b.length < 8 then .panic else .ok (be64 (b.take 8))
 
+/-- one full 64-bit block of the NIA1 loop: `EVAL = mul(EVAL ^ M_i, P, c)` with `M_i = binary.BigEndian.Uint64(msg[8*i:])` -/
+def nia1Step (msg : Bytes) (P c : W64) (i : Nat) (ev : W64) : Outcome W64 :=
+  if 8 * i ≤ msg.length then
+    match uint64At (msg.drop (8 * i)) with
+    | .ok M => .ok (mul (ev ^^^ M) P c)
+    | .err e => .err e
+    | .panic => .panic
+  else .panic
+
+/-- the block loop of NIA1 (D-2 full blocks, then the zero-padded last block); nothing to do for LENGTH = 0 (fix 8a9688c) -/
+def nia1Blocks (msg : Bytes) (length D : Nat) (P c : W64) : Outcome W64 :=
+  if length > 0 then
+    match forRange (D - 2) 0 (nia1Step msg P c) 0#64 with
+    | .ok ev =>
+      if 8 * (D - 2) ≤ msg.length then
+        let tmp := (msg.drop (8 * (D - 2))).take 8
+        let tmp := tmp ++ List.replicate (8 - tmp.length) 0
+        .ok (mul (ev ^^^ be64 tmp) P c)
+      else .panic
+    | o => o
+  else .ok 0#64
+
 def NIA1 (ik : Bytes) (countI : W32) (bearer : UInt8) (direction : W32) (msg : Bytes) (length : Nat) : Outcome Bytes :=
   let fresh : W32 := BitVec.ofNat 32 bearer.toNat <<< 27
   let k := keyWords ik
@@ -122,23 +144,7 @@ def NIA1 (ik : Bytes) (countI : W32) (bearer : UInt8) (direction : W32) (msg : B
   let P := (zz 0 <<< 32) ||| zz 1
   let Q := (zz 2 <<< 32) ||| zz 3
   let c : W64 := 0x1b#64
-  let blocks : Outcome W64 :=
-    if length > 0 then
-      match forRange (D - 2) 0 (fun i ev =>
-          if 8 * i ≤ msg.length then
-            match uint64At (msg.drop (8 * i)) with
-            | .ok M => .ok (mul (ev ^^^ M) P c)
-            | .err e => .err e
-            | .panic => .panic
-          else .panic) 0#64 with
-      | .ok ev =>
-        if 8 * (D - 2) ≤ msg.length then
-          let tmp := (msg.drop (8 * (D - 2))).take 8
-          let tmp := tmp ++ List.replicate (8 - tmp.length) 0
-          .ok (mul (ev ^^^ be64 tmp) P c)
-        else .panic
-      | o => o
-    else .ok 0#64
+  let blocks : Outcome W64 := nia1Blocks msg length D P c
   match blocks with
   | .ok ev =>
     let ev := ev ^^^ BitVec.ofNat 64 length
